@@ -258,7 +258,7 @@ impl<'p> World<'p> {
         self.obs(&format!("skip {why}"));
     }
 
-    fn arm(&self, rng: &RngSpec, now: Option<i128>) {
+    pub fn arm(&self, rng: &RngSpec, now: Option<i128>) {
         payloads::reset_counters();
         clock::set_now_ns(now);
         clock::set_iv(self.plan.iv.as_ref().and_then(|iv| {
@@ -269,7 +269,7 @@ impl<'p> World<'p> {
         rngsvc::begin(rng);
     }
 
-    fn disarm(&mut self) -> Vec<Draw> {
+    pub fn disarm(&mut self) -> Vec<Draw> {
         let d = rngsvc::end();
         let hits = clock::iv_hits();
         if hits > 0 {
@@ -485,20 +485,18 @@ impl<'p> World<'p> {
                 self.keys.insert(slot, KeyRec { family: bk.family(), kind, text, raw: Some(raw), honest: true, expect_valid: Some(true) });
                 self.cache.insert((node, slot), h);
             }
-            Out::Err(e) => self.violate(
-                "C16",
-                "keygen-failed-with-healthy-rng",
-                bk,
-                &format!("keygen-{}", kind.name()),
-                "",
-                format!("random() returned {e:?} although no RNG failure was injected (rng={})", rng.kind()),
-            ),
+            Out::Err(e) => {
+                // No listed property demands that key generation succeeds for every RNG value
+                // (C05 does for the ephemeral key inside a PKE seal, judged there): count it.
+                let _ = e;
+                self.stats.bump(&format!("keygen-failed-with-healthy-rng:{}:{}", bk.name(), rng.kind()));
+            }
             Out::Panic(p) => self.violate("C04", "panic", bk, &format!("keygen-{}", kind.name()), "", format!("random() panicked: {p}")),
         }
     }
 
     /// C16: every generated key is attributable to a draw made inside the operation.
-    fn check_key_draws(&mut self, bk: Bk, kind: Kind, raw: &[u8], draws: &[Draw]) {
+    pub fn check_key_draws(&mut self, bk: Bk, kind: Kind, raw: &[u8], draws: &[Draw]) {
         let op = format!("keygen-{}", kind.name());
         let ok = match (bk.family(), kind) {
             (_, Kind::Local) => draws.len() == 1 && draws[0].bytes == raw,
@@ -810,7 +808,7 @@ impl<'p> World<'p> {
         // C16: the nonce on the wire is attributable to a draw of this very operation
         match (bk.family(), purpose) {
             (3 | 4, Purp::Local) => {
-                let ok = draws.len() == 1 && draws[0].bytes.len() == 32 && parts.payload.len() >= 32 && parts.payload[..32] == draws[0].bytes[..];
+                let ok = parts.payload.len() >= 32 && draws.iter().any(|d| d.bytes[..] == parts.payload[..32]);
                 if !ok {
                     self.violate("C16", "nonce-not-from-fresh-draw", bk, &op, "", format!("token nonce is not the 32 bytes drawn inside this call ({} draws)", draws.len()));
                 }
@@ -831,7 +829,7 @@ impl<'p> World<'p> {
                         } else {
                             None
                         };
-                        if draws.len() != 1 || expect.as_deref() != parts.payload.get(..n) {
+                        if expect.as_deref() != parts.payload.get(..n) {
                             self.violate("C16", "nonce-not-from-fresh-draw", bk, &op, "", format!("synthetic nonce is not MAC(fresh draw, message) ({} draws of {:?} bytes)", draws.len(), draws.iter().map(|d| d.bytes.len()).collect::<Vec<_>>()));
                         }
                     }
@@ -1223,11 +1221,17 @@ impl<'p> World<'p> {
         let attributable = match wk {
             WrapKind::Pie => {
                 let off = if nist { 48 } else { 32 };
-                draws.len() == 1 && data.len() >= off + 32 && data[off..off + 32] == draws[0].bytes[..]
+                data.len() >= off + 32 && draws.iter().any(|d| d.bytes[..] == data[off..off + 32])
             }
             WrapKind::Pw => {
+                // salt and nonce must be two *different* draws of this call (the C libraries
+                // may make further internal draws)
                 let (sl, nl, off) = if nist { (32, 16, 36) } else { (16, 24, 32) };
-                draws.len() == 2 && data.len() >= off + nl && data[..sl] == draws[0].bytes[..] && data[off..off + nl] == draws[1].bytes[..]
+                data.len() >= off + nl && {
+                    let si = draws.iter().position(|d| d.bytes[..] == data[..sl]);
+                    let ni = draws.iter().position(|d| d.bytes[..] == data[off..off + nl]);
+                    si.is_some() && ni.is_some() && si != ni
+                }
             }
             WrapKind::Pke => !draws.is_empty(),
         };
